@@ -34,7 +34,9 @@ COMPONENTS = {
 ASSUMPTIONS = ["the feature set is the grammar above (listed per production in probes grammar.*); loops (cwltool:Loop / v1.3 loop), records, Directory values, secondaryFiles, "
                "InitialWorkDirRequirement and container requirements are not generated",
                "two failing runs are considered equal whatever their messages"]
-TIERS = {"quick": {"runs": 160, "budget_s": 75, "chunk": 2}, "thorough": {"runs": 20000, "budget_s": 900, "chunk": 8}}
+# grammar 2 = grammar 1 + tool-level defaults, valueFrom reading another input, arrays of optional ints; runs without the
+# parameter (replay files recorded before it existed) use grammar 1, whose tape layout is unchanged
+TIERS = {"quick": {"runs": 160, "budget_s": 75, "chunk": 2, "params": {"grammar": 2}}, "thorough": {"runs": 20000, "budget_s": 900, "chunk": 8, "params": {"grammar": 2}}}
 SIM_KW = {"max_steps": 3_000_000, "wall_cap": 120.0, "max_vtime": 1e7}
 
 
@@ -153,7 +155,7 @@ def run(sim, params):
     t = sim.tape
     docdir = os.path.join(sim.scratch, "doc")
     os.makedirs(docdir, exist_ok=True)
-    gen = cwlgen.generate(t, docdir, max_steps=params.get("max_steps", 6))
+    gen = cwlgen.generate(t, docdir, max_steps=params.get("max_steps", 6), grammar=params.get("grammar", 1))
     ref = cwlref.run(gen["wf"], gen["jobfile"], os.path.join(sim.scratch, "ref-out"))
     for f in gen["used"]:
         sim.probe("grammar." + f)
